@@ -14,6 +14,7 @@ def parseOp (s : String) : Option Op :=
   | ["kerr", b] => some (.kerr (boolOf b))
   | ["low", p, v] => do pure (.setLow (← p.toInt?) (← v.toInt?))
   | ["refresh"] => some .refresh
+  | ["refresh&"] => some .refresh        -- a refresh still in its broker round trip when the next op (a revocation) arrives: serialised, refresh first
   | ["own", ps] => do pure (.own (← parseInts ps))
   | ["revoke"] => some .revoke
   | ["revokex"] => some .revoke          -- a revocation during which the main client's Unassign fails: the same to the recovery consumer
@@ -52,22 +53,6 @@ def expand (s : St) (q : List (Int × Int)) : List ROp → List Op
     let so := step s o
     let isCrash := match o with | .crash => true | _ => false
     o :: expand so.1 (if drainedBy so.2 || isCrash then [] else q) r
-
-def sortPairs (l : List (Int × Int)) : List (Int × Int) := sortByKey l
-
-def callStr : List Call → String
-  | [] => ""
-  | .unassign :: r => "U" ++ callStr r
-  | .assign _ :: r => "A" ++ callStr r
-
-def lastAssign (cs : List Call) : Option (List (Int × Int)) :=
-  cs.foldl (fun acc c => match c with | .assign l => some (sortPairs l) | .unassign => acc) none
-
-def obsOf (o : Out) : ObsOp :=
-  { recE := (o.emits.filter (·.recovery)).map (fun e => (e.p, e.o)),
-    mainE := (o.emits.filter (fun e => !e.recovery)).map (fun e => (e.p, e.o)),
-    calls := callStr o.calls, assign := lastAssign o.calls,
-    bcasts := sortByKey (o.bcasts.map (fun b => (b.1, snapP b.2))) }
 
 def renderOp (o : ObsOp) : String :=
   let parts :=
